@@ -636,6 +636,59 @@ Lemma tie_tp_pool_destroy : TIE_tp_pool_destroy =
    (0, "*poolp=NULL")].
 Proof. reflexivity. Qed.
 
+(* mtbl/block.c: block_destroy *)
+Lemma tie_blk_block_destroy : TIE_blk_block_destroy =
+  [(0, "if(*b!=NULL)");
+   (1, "if((*b)->needs_free)free((*b)->data)");
+   (1, "free(*b)");
+   (1, "*b=NULL")].
+Proof. reflexivity. Qed.
+
+(* mtbl/block.c: block_iter_destroy *)
+Lemma tie_blk_block_iter_destroy : TIE_blk_block_iter_destroy =
+  [(0, "if(*bi!=NULL)");
+   (1, "ubuf_destroy(&(*bi)->key)");
+   (1, "free(*bi)");
+   (1, "*bi=NULL")].
+Proof. reflexivity. Qed.
+
+(* mtbl/fileset.c: fs_load *)
+Lemma tie_fs_fs_load : TIE_fs_fs_load =
+  [(0, "structshared_fileset*f=(structshared_fileset*)my_fileset_user(fs)");
+   (0, "f->n_loaded++");
+   (0, "return(mtbl_reader_init(fname,NULL))")].
+Proof. reflexivity. Qed.
+
+(* mtbl/fileset.c: fs_unload *)
+Lemma tie_fs_fs_unload : TIE_fs_fs_unload =
+  [(0, "structshared_fileset*f=(structshared_fileset*)my_fileset_user(fs)");
+   (0, "structmtbl_reader*r=(structmtbl_reader*)ptr");
+   (0, "f->n_unloaded++");
+   (0, "mtbl_reader_destroy(&r)")].
+Proof. reflexivity. Qed.
+
+(* mtbl/fileset.c: mtbl_fileset_set_options *)
+Lemma tie_fs_mtbl_fileset_set_options : TIE_fs_mtbl_fileset_set_options =
+  [(0, "assert(opt!=NULL)");
+   (0, "f->reload_interval=opt->reload_interval");
+   (0, "f->mopt=mtbl_merger_options_init()");
+   (0, "mtbl_merger_options_set_merge_func(f->mopt,opt->merge,opt->merge_clos)");
+   (0, "mtbl_merger_options_set_dupsort_func(f->mopt,opt->dupsort,opt->dupsort_clos)");
+   (0, "f->fname_filter=opt->fname_filter");
+   (0, "f->fname_filter_clos=opt->fname_filter_clos");
+   (0, "f->reader_filter=opt->reader_filter");
+   (0, "f->reader_filter_clos=opt->reader_filter_clos");
+   (0, "f->merger=mtbl_merger_init(f->mopt)");
+   (0, "f->source=mtbl_source_init(fileset_source_iter,fileset_source_get,fileset_source_get_prefix,fileset_source_get_range,NULL,f)")].
+Proof. reflexivity. Qed.
+
+(* mtbl/fileset.c: mtbl_fileset_options_destroy *)
+Lemma tie_fs_mtbl_fileset_options_destroy : TIE_fs_mtbl_fileset_options_destroy =
+  [(0, "if(*opt)");
+   (1, "free(*opt)");
+   (1, "*opt=NULL")].
+Proof. reflexivity. Qed.
+
 (* libmy/vector.h: whole file *)
 Lemma tie_vector_h : TIE_vector_h =
   [(0, "#include<assert.h>");
